@@ -370,8 +370,10 @@ def _lease_history(k, qsize):
     return run
 
 
-for _k in (1, 2, 4):
-    for _qs in (0, 1, 3):
+from pyvc.harness import thorough as _thorough   # noqa: E402
+
+for _k in (1, 2, 4) + ((6,) if _thorough() else ()):
+    for _qs in (0, 1, 3) + ((5,) if _thorough() else ()):
         harness('c14.history.bounded[requests=%d,queue_size=%d]' % (_k, _qs), ['C14'], kind='bounded', replay='c14_history',
                 functions=[BASE + '.send_request', BASE + '._queue_request_frame', BASE + '.handle_lease', BASE + '._reset_internals'],
                 assumptions=['BOUNDED stand-in: up to 4 requests before the first LEASE, retention queue sizes 0 (unbounded), 1, 3; '
